@@ -59,6 +59,71 @@ struct Model {   // exact counts; plain arrays (a state is rebuilt ~10^7 times, 
   uint64_t of(int item) const { return truth[item]; }
 };
 
+// ---- fractional weights: W = double, weights are multiples of 1/4 (every sum and difference is exact in a double, so the exact
+// model stays an integer count of quarters). The purge then removes a median with a fractional part, and what the sketch adds to its
+// offset must be that same amount: the bracket lb <= true <= ub is the oracle, as for the integral weights.
+struct FiDblSys {
+  typedef frequent_items_sketch<int, double> Sk;
+  struct State { std::unique_ptr<Sk> sk; uint64_t truth[UNIVERSE]; uint64_t total; bool terminal; const char* last; State(): total(0), terminal(false), last("init") { for (int i = 0; i < UNIVERSE; ++i) truth[i] = 0; } };
+  struct Op { int item; int q; bool self; std::string name; };
+  std::string nm; std::vector<std::pair<int, int> > prefix; std::vector<Op> ops; int lg_max;
+  FiDblSys(const std::string& n, int lg, const std::vector<std::pair<int, int> >& pre, const std::vector<int>& items, const std::vector<int>& quarters): nm(n), prefix(pre), lg_max(lg) {
+    for (size_t i = 0; i < items.size(); ++i) for (size_t j = 0; j < quarters.size(); ++j) { Op o; o.item = items[i]; o.q = quarters[j]; o.self = false; o.name = "upd(" + str(o.item) + "," + str(o.q) + "/4)"; ops.push_back(o); }
+    { Op o; o.item = -1; o.q = 0; o.self = true; o.name = "merge(copy)"; ops.push_back(o); }
+  }
+  std::string name() const { return nm; }
+  size_t nops() const { return ops.size(); }
+  std::string opname(size_t i) const { return ops[i].name; }
+  State* make() {
+    State* s = new State(); s->sk.reset(new Sk((uint8_t)lg_max, (uint8_t)3));
+    for (size_t i = 0; i < prefix.size(); ++i) { s->sk->update(prefix[i].first, prefix[i].second / 4.0); s->truth[prefix[i].first] += (uint64_t)prefix[i].second; s->total += (uint64_t)prefix[i].second; }
+    s->terminal = broken(*s); return s;
+  }
+  bool broken(const State& s) const {
+    if (s.sk->get_total_weight() * 4 != (double)s.total) return true;
+    for (int x = 0; x < UNIVERSE; ++x) { const double t = (double)s.truth[x] / 4.0; if (!(s.sk->get_lower_bound(x) <= t && t <= s.sk->get_upper_bound(x))) return true; }
+    return false;
+  }
+  bool apply(State& s, size_t opi, Ctx*) {
+    if (s.terminal) return false;
+    const Op& o = ops[opi];
+    if (o.self) { const Sk copy(*s.sk); s.sk->merge(copy); for (int x = 0; x < UNIVERSE; ++x) s.truth[x] *= 2; s.total *= 2; s.last = "merge(copy)"; }
+    else { s.sk->update(o.item, o.q / 4.0); s.truth[o.item] += (uint64_t)o.q; s.total += (uint64_t)o.q; s.last = "update"; }
+    s.terminal = broken(s);
+    return true;
+  }
+  std::string canon(State& s) {
+    const Sk& k = *s.sk; char b[64]; std::string c;
+    snprintf(b, sizeof b, "%a,%a,%u|", k.get_total_weight(), k.get_maximum_error(), (unsigned)k.get_num_active_items()); c += b;
+    for (int x = 0; x < UNIVERSE; ++x) { snprintf(b, sizeof b, "%a:%llu,", k.get_lower_bound(x), (unsigned long long)s.truth[x]); c += b; }
+    return c;
+  }
+  void check(State& s, Ctx& c) {
+    const Sk& k = *s.sk; const std::string at = std::string("@") + s.last;
+    const double maxerr = k.get_maximum_error();
+    if (k.get_total_weight() * 4 != (double)s.total) c.fail("total-weight-exact" + at, "get_total_weight " + str(k.get_total_weight()) + " exact sum " + str((double)s.total / 4));
+    double dropped = 0;
+    for (int x = 0; x < UNIVERSE; ++x) {
+      const double t = (double)s.truth[x] / 4.0, lb = k.get_lower_bound(x), ub = k.get_upper_bound(x), est = k.get_estimate(x);
+      const std::string who = "item " + str(x) + " true " + str(t) + " lb " + str(lb) + " est " + str(est) + " ub " + str(ub) + " max_error " + str(maxerr);
+      if (!(lb <= t)) c.fail("lb<=true" + at, who);
+      if (!(t <= ub)) c.fail("true<=ub" + at, who);
+      if (!(lb <= est && est <= ub)) c.fail("lb<=est<=ub" + at, who);
+      if (!(ub - lb == maxerr)) c.fail("ub-lb==max_error" + at, who);
+      dropped += t - lb;
+    }
+    if (!(k.get_num_active_items() <= (3u << lg_max) / 4)) c.fail("num_active<=capacity" + at, "num_active " + str(k.get_num_active_items()));
+    if (!(maxerr <= k.get_epsilon() * k.get_total_weight())) c.fail("max_error<=epsilon*total" + at, "max_error " + str(maxerr) + " total " + str(k.get_total_weight()));
+    // NO_FALSE_NEGATIVES at the sketch's own threshold: every item whose true weight exceeds the maximum error is returned
+    Sk::vector_row rows = k.get_frequent_items(NO_FALSE_NEGATIVES);
+    unsigned present = 0; for (size_t r = 0; r < rows.size(); ++r) if (rows[r].get_item() >= 0 && rows[r].get_item() < UNIVERSE) present |= 1u << rows[r].get_item();
+    for (int x = 0; x < UNIVERSE; ++x) if ((double)s.truth[x] / 4.0 > maxerr && !(present >> x & 1)) c.fail("nfn-superset-of-true>t" + at, "item " + str(x) + " with true weight " + str((double)s.truth[x] / 4.0) + " missing (max error " + str(maxerr) + ")");
+    Sk::vector_row rows2 = k.get_frequent_items(NO_FALSE_POSITIVES);
+    for (size_t r = 0; r < rows2.size(); ++r) { const int x = rows2[r].get_item(); if (x < 0 || x >= UNIVERSE || !((double)s.truth[x] / 4.0 > maxerr)) c.fail("nfp-subset-of-true>t" + at, "item " + str(x) + " returned"); }
+    (void)dropped;
+  }
+};
+
 template<class T, class H>
 struct FiSys {
   typedef frequent_items_sketch<T, uint64_t, H> Sk;
@@ -378,6 +443,21 @@ int main(int argc, char** argv) {
         FiSys<std::string, std::hash<std::string> > sys(s, su);
         explore(sys, rep, cfg, lim);
       }
+    };
+    tasks.push_back(t);
+  }
+  // fractional weights (W = double, quarters): seeded with six counters, then every sequence over two new and two held items; lg 3
+  // purges at the 7th counter, lg 4 (thorough) at the 13th
+  for (int v = 0; v < (q ? 1 : 2); ++v) {
+    Task t; t.name = v == 0 ? "double/lg3/seeded6/quarters" : "double/lg4/seeded12/quarters";
+    t.fn = [v, q, &cfg](Report& rep) {
+      std::vector<std::pair<int, int> > pre; const int w6[12] = {3, 6, 1, 10, 3, 5, 7, 2, 9, 3, 1, 6};
+      for (int i = 0; i < (v == 0 ? 6 : 12); ++i) pre.push_back(std::make_pair(i, w6[i]));
+      std::vector<int> items; items.push_back(v == 0 ? 6 : 12); items.push_back(v == 0 ? 7 : 13); items.push_back(0); items.push_back(3);
+      std::vector<int> quarters; quarters.push_back(1); quarters.push_back(3); quarters.push_back(6);
+      FiDblSys sys(v == 0 ? "double/lg3/seeded6/quarters" : "double/lg4/seeded12/quarters", v == 0 ? 3 : 4, pre, items, quarters);
+      BfsLimits lim; lim.max_depth = q ? 4 : 5; lim.max_states = 8000000;
+      explore(sys, rep, cfg, lim);
     };
     tasks.push_back(t);
   }
